@@ -23,6 +23,15 @@ def run(ctx):
     ctx.coverage["correspondences"] = {"all 2404 variants vs the all-Cartesian variant on the real code (float64)": {"ok": not ctx.failures}}
 
 
+_run_without_compiled = run
+
+
+def run(ctx):
+    _run_without_compiled(ctx)
+    from tools import nbrows
+    nbrows.check(ctx, ['x', 'y', 'z', 'rho', 'phi', 'theta', 'eta', 't', 'tau', 'mag', 'mag2', 'rho2', 't2', 'tau2', 'neg2D', 'neg3D', 'neg4D'], 'the accessors')
+
+
 def replay(rec):
     f = rec.get("failure") or {}
     inp = f.get("input") or {}
